@@ -3,7 +3,8 @@
 proof gate: coq/Props/C14.v (schedule theorems on the text REGENERATED from tebd.py; accounting theorem over
 the engine table REGENERATED from the sources).  correspondence: generated schedule vs implementation;
 accounting of real engines with injected dyadic truncation errors vs Model/TimeAcct.v; bonds touched per
-step vs Model/Trotter.v.  oracle: dense exp(-iHt)|psi0> (convergence order, norm, energy, charges).
+step vs Model/Trotter.v; the steps real engines execute over one or several run() calls, merged over equal
+parity with exact Fractions, vs Model/TrotterMerge.v `merge` (check_merge, Model/TrotterMergeCheck.v).  oracle: dense exp(-iHt)|psi0> (convergence order, norm, energy, charges).
 """
 import math
 from fractions import Fraction
@@ -49,7 +50,7 @@ ACCT_ENGINES = [
 
 def main(ctx):
     rng = ctx.rng
-    ctx.proof = common.check_proofs('C14', extra_targets=['Model/TrotterCheck.vo'])
+    ctx.proof = common.check_proofs('C14', extra_targets=['Model/TrotterCheck.vo', 'Model/TrotterMergeCheck.vo'])
     boost = 1 if ctx.proof.ok else 2
     # ------------------------------------------------------------------ schedule stream (validates translator output)
     sched = []
@@ -108,6 +109,8 @@ def main(ctx):
         ctx.fail('correspondence', 'time step model evaluation failed: ' + err[-500:], None)
     for b in bad:
         ctx.fail('correspondence', 'translated suzuki_trotter_time_steps and the implementation disagree for order %r' % ORDERS[b], ORDERS[b])
+    # ------------------------------------------------------------------ merge stream (ties Model/TrotterMerge.v)
+    merge_stream(ctx, rng)
     # ------------------------------------------------------------------ accounting stream
     acases = []
     nacc = ctx.pick(2, 6) * boost
@@ -285,6 +288,89 @@ def main(ctx):
                       'engine table; model executed against real engines with injected exact truncation errors; dense exp(-iHt) oracle')
 
 
+def py_merge(trace, coeff):
+    """Independent of the Coq model: consecutive executed steps acting on the same parity of bonds are one
+    evolution of those bonds by the SUM of their times (exact Fractions)."""
+    out = []
+    for j, k in trace:
+        if out and out[-1][1] == k:
+            out[-1][0] += coeff[j]
+        else:
+            out.append([coeff[j], k])
+    return [(t, k) for t, k in out]
+
+
+def merge_cases(ctx, rng):
+    cases = []
+    for o in ORDERS:
+        # real engines: one run() call with N steps, and the same total split into several run() calls
+        splits = [[1], [2], [3], [1, 1], [1, 2], [2, 1, 1], [rng.randint(4, 9)],
+                  [rng.randint(1, 3) for _ in range(rng.randint(2, 4))]]
+        if ctx.thorough():
+            splits += [[rng.randint(1, 4) for _ in range(rng.randint(1, 5))] for _ in range(8)]
+        for sp in splits:
+            infinite = rng.random() < 0.3
+            L = 2 if infinite else rng.choice([3, 4])
+            eng = 'QRBasedTEBDEngine' if rng.random() < 0.25 else 'TEBDEngine'
+            cases.append({'mode': 'engine', 'engine': eng, 'order': o, 'splits': sp, 'dt_exp': rng.randint(0, 6),
+                          'model': model(TFI, L=L, bc='infinite' if infinite else 'finite'), 'state': neel(L),
+                          'direct_run_evolution': rng.random() < 0.3})
+        # the static methods alone, as TEBDEngine.evolve iterates over them (larger N)
+        for N in [0, 1, 2, 3, 5, 8, 13, rng.randint(14, 40)]:
+            cases.append({'mode': 'static', 'order': o, 'splits': [N]})
+    return cases
+
+
+def merge_stream(ctx, rng):
+    cases = merge_cases(ctx, rng)
+    chunks = [cases[i::8] for i in range(8)]
+    chunks = [c for c in chunks if c]
+    res = common.run_impl_parallel('c14_impl.py', [{'kind': 'merge', 'cases': ch} for ch in chunks])
+    x_t1 = Fraction(1.0 / (4.0 - 4.0 ** (1 / 3.0)))
+    coq_cases, src = [], []
+    for ch, (r, err) in zip(chunks, res):
+        if err:
+            ctx.fail('correspondence', 'merge runner failed: ' + err[-600:], None)
+            continue
+        for c, x in zip(ch, r):
+            if 'runner_error' in x:
+                ctx.fail('correspondence', 'merge run failed: ' + x['runner_error'][-500:], c)
+                continue
+            N = sum(c['splits'])
+            dt = Fraction(float.fromhex(x['delta_t']))
+            coeff = [Fraction(float.fromhex(h)) / dt for h in x['coeff']]
+            trace = [tuple(t) for t in x['trace']]
+            merged = py_merge(trace, coeff)
+            if x['evolved'] is not None and Fraction(float.fromhex(x['evolved'])) != N * dt:
+                ctx.fail('oracle', 'TEBD order %r: evolved_time %r after %r steps of %r' % (c['order'], float.fromhex(x['evolved']), c['splits'], float(dt)),
+                         {'stream': 'merge', 'case': c, 'impl': x}, match_key='C14:merge:evolved_time')
+            ctx.count('merge', [c['mode'], c.get('engine'), c['order'], c['splits'], c.get('dt_exp')],
+                      nontrivial=len(merged) < len(trace) or N > 1,
+                      sample={'order': c['order'], 'splits': c['splits'], 'executed': len(trace), 'merged': len(merged),
+                              'merged_head': [[str(t), k] for t, k in merged[:4]]})
+            coq_cases.append(merge_lit(c['order'], c['splits'], x_t1, merged))
+            src.append((c, x, merged))
+    bad, err = common.coq_failing_indices('cases_c14_merge', ['Base.Prelude', 'Base.PyLib', 'Gen.G_trotter', 'Model.Trotter', 'Model.TrotterMerge',
+                                                              'Model.TrotterMergeCheck'], 'check_merge', coq_cases, shard=40,
+                                          preamble='From Coq Require Import QArith.\n')
+    if err:
+        ctx.fail('correspondence', 'merge model evaluation failed: ' + err[-500:], None)
+    for b in bad[:3]:
+        c, x, merged = src[b]
+        ctx.fail('correspondence', 'order %r, run() calls with N_steps %r: the steps the engine executed, merged over equal parity, are not '
+                 'Model/TrotterMerge.v `merge` of the %d-step schedule / of %d one-step schedules / of the schedules of these calls' % (c['order'], c['splits'], sum(c['splits']), sum(c['splits'])),
+                 {'stream': 'merge', 'case': c, 'impl': x, 'merged': [[str(t), k] for t, k in merged]})
+    ctx.cov['merge_cases_vs_model'] = len(coq_cases)
+
+
+MERGE_TOL = {1: Fraction(0), 2: Fraction(0), 4: Fraction(0), '4_opt': Fraction(1, 10 ** 12)}
+
+
+def merge_lit(order, splits, x, merged):
+    lst = '[' + '; '.join('(%s, (%d)%%Z)' % (qlit(t), k) for t, k in merged) + ']' if merged else '(@nil (Q * Z))'
+    return coq_lit((coq_order(order), list(splits), CoqRaw(qlit(x)), CoqRaw(qlit(MERGE_TOL[order])), CoqRaw(lst)))
+
+
 def qlit(fr):
     return '(%d # %d)%%Q' % (fr.numerator, fr.denominator)
 
@@ -294,6 +380,6 @@ def sched_coq(coq_cases):
                                       'check_schedule', coq_cases, shard=150)
 
 
-RULE = ('schedule: all orders x N in 0..7 (+ one large N); accounting: every engine class x options x random splits into run() calls, '
+RULE = ('schedule: all orders x N in 0..7 (+ one large N); merge: all orders x 8 splits of N into run() calls on real engines + 8 N (0..40) on the static methods; accounting: every engine class x options x random splits into run() calls, '
         'finite and infinite chains, non-trivial when at least one non-zero truncation error was injected; coverage: every evolve_step of '
         'real TEBD runs; dense: one or two models per engine/order at dt and dt/2')
